@@ -391,6 +391,9 @@ func listElement(v ssa.Value) (bool, string) {
 func c16Caps(c *Ctx) {
 	accs := CollectAccesses(c)
 	ri := discoverRegistries(c, accs)
+	// the capability recomputation must look at the registries the server registers into: a dispatcher constructed
+	// without them falls back to fresh, empty ones (and may re-wire the shared lifecycle manager to those)
+	c12OneRegistry(c, ri.owners)
 	regOf := func(prefix string) string {
 		var fns []*ssa.Function
 		for _, T := range c.serverTypes() {
